@@ -65,6 +65,7 @@ type Ctx struct {
 	unescaped map[string]Term
 	// ghost components whose first key is an object reference
 	refKeyedGhost map[string]bool
+	compIDs       map[string]int
 }
 
 type structInfo struct {
